@@ -38,7 +38,10 @@ def pyenv(extra=None):
 
 
 def run_one(cond, twin=False):
-    t = cond['timeout'] if not twin else min(cond['timeout'], 60)
+    # budgets are upper bounds (a confirmed condition stops as soon as its path tree is exhausted); the factor leaves slack
+    # for slower or busier machines than the one the per-condition numbers were measured on
+    factor = float(os.environ.get('VERIF_CH_BUDGET_FACTOR', '3'))
+    t = cond['timeout'] * factor if not twin else min(cond['timeout'], 60) * 2
     cmd = [VENV_PY, os.path.join(HERE, 'ch_run.py'), cond['module'], cond['function'], str(t)]
     if twin:
         cmd.append('--twin')
